@@ -78,6 +78,12 @@ def build_case(rng, tier, kind):
         evs.append(("tables", names))
         if i % dump_every == 0 or kind == "deep":
             evs.append(("dump",))
+    if kind == "deep":
+        # reload: what was flushed is what is read back, through a cold cache
+        evs += [("flush",), ("crash",), ("tables", list(seen) + ["sys_schema"]), ("dump",),
+                ("stmt", {"k": "delete", "table": seen[0], "where": [[(("col", "", "a"), "=", 1500)]]}),
+                ("stmt", {"k": "delete", "table": seen[0], "where": [[(("col", "", "a"), "=", 2450)]]}),
+                ("tables", list(seen))]
     return evs
 
 
